@@ -205,8 +205,10 @@ func runC05(c *Ctx) {
 	})
 	if c.Quick() {
 		parserModelCases(c, items, 8000)
+		gfmModelCases(c, items, 4000)
 	} else {
 		parserModelCases(c, items, 80000)
+		gfmModelCases(c, items, 40000)
 	}
 	nw := 16
 	built := make([][]mdT, nw)
